@@ -180,7 +180,7 @@ def correspondence(ctx: Ctx, sigs):
             tf = make_tf(cname, p, trim=bool(it % 2))
             span = hi - lo
             xs = [dy(ctx.rng, lo + span / 64, hi - span / 64, 12) for _ in range(2)]
-            if it == 0:  # close to the ends of the domain
+            if it in (0, 1):  # close to the ends of the domain, once with trimming off and once on
                 xs.append(lo + span * 2.0 ** -20)
                 if hi < 1e6:
                     xs.append(hi - span * 2.0 ** -20)
@@ -203,6 +203,8 @@ def correspondence(ctx: Ctx, sigs):
                     ctx.count(f"{short(cname)}.{m}")
                 # generic inverse-derivative formulas through the base class and InverseRTransform
                 r = call_impl(tf, "transform", x)
+                if "rmin" in p and not r > p["rmin"] + 1e-6 * (1 + abs(p["rmin"])):
+                    continue  # within rounding distance of the codomain end 1 - exp(..) cancels: floating point, not the formulas
                 itf = RT.InverseRTransform(tf)
                 cp = coq_params(sigs, cname, p)
                 fs = " ".join(f"({short(cname)}_{mm} {cp})" for mm in METHODS)
@@ -237,7 +239,7 @@ def correspondence(ctx: Ctx, sigs):
 CORPUS = [("HandyModRTransform", dict(rmin=0.0, rmax=10.0, m=3), 0.0)]
 
 KIND_OF = {"inv_tf": "inverse(transform(x)) = x", "tf_inv": "transform(inverse(r)) = r", "d1": "deriv", "d2": "deriv2", "d3": "deriv3",
-           "id1": "deriv_inverse", "id2": "deriv2_inverse", "id3": "deriv3_inverse", "mono": "monotone", "ends": "end points", "reuse": "same-array reuse"}
+           "id1": "deriv_inverse", "id2": "deriv2_inverse", "id3": "deriv3_inverse", "mono": "monotone", "ends": "end points", "reuse": "same-array reuse", "trim": "infinity trimming", "extreme": "extreme admissible parameters"}
 
 
 def property_checks(tf, cname, p, x, lo, hi):
@@ -368,6 +370,57 @@ def sweep(ctx: Ctx):
                         if not np.allclose(got, fresh, rtol=1e-12, atol=0, equal_nan=True):
                             first.setdefault((cname, "reuse"), (p, f"{'InverseRTransform.' if wrap else ''}{m}: buffer refilled in place from {a.tolist()} to {b_.tolist()}",
                                                                 float(got[0]), float(fresh[0])))
+    # infinity trimming replaces ONLY infinities (finite values, however large, are left alone), scalars and arrays
+    tfc = make_tf("BeckeRTransform", dict(rmin=0.0, R=1.0), True)
+    arr = np.array([-np.inf, -1e300, -1e17, -1.0, 0.0, 2.5, 1e16, 3e16, 1e200, np.inf])
+    exp_arr = arr.copy()
+    exp_arr[0], exp_arr[-1] = -1e16, 1e16
+    try:
+        got = np.asarray(tfc._convert_inf(arr.copy()), dtype=float)
+        scal = [float(tfc._convert_inf(float(v))) for v in arr]
+        if not np.array_equal(got, exp_arr):
+            i = int(np.argmax(got != exp_arr))
+            first.setdefault(("BaseTransform", "trim"), ({}, f"_convert_inf(array) element {arr[i]!r}", float(got[i]), float(exp_arr[i])))
+        elif scal != list(exp_arr):
+            i = [a != b for a, b in zip(scal, exp_arr)].index(True)
+            first.setdefault(("BaseTransform", "trim"), ({}, f"_convert_inf(scalar {arr[i]!r})", scal[i], float(exp_arr[i])))
+    except Exception as e:  # noqa: BLE001
+        first.setdefault(("BaseTransform", "trim"), ({}, "_convert_inf", type(e).__name__, "trimmed values"))
+    # with trimming ON, finite derivatives beyond 1e16 near the singular end must still be the true (untrimmed) values
+    for cname, p, x in (("HandyRTransform", dict(rmin=0.0, R=1.5, m=3), 1 - 2.0 ** -20), ("HandyRTransform", dict(rmin=0.0, R=1.5, m=2), 0.999),
+                        ("BeckeRTransform", dict(rmin=0.0, R=1.5), 1 - 2.0 ** -30), ("KnowlesRTransform", dict(rmin=0.0, R=1.5, k=3), 1 - 2.0 ** -40),
+                        ("HandyModRTransform", dict(rmin=0.0, rmax=20.0, m=3), 1 - 2.0 ** -20)):
+        t_on, t_off = make_tf(cname, p, True), make_tf(cname, p, False)
+        for m in ("transform", "deriv", "deriv2", "deriv3"):
+            a, b_ = call_impl(t_on, m, x), call_impl(t_off, m, x)
+            npts += 1
+            if math.isfinite(b_) and a != b_:
+                first.setdefault((cname, "trim"), (p, f"{m} with trim_inf=True at interior x={x}", a, b_))
+    # extreme but admissible parameters: very flat maps; the inverse-derivative methods must return the inverse-function-theorem values
+    for cname, p, x in (("ExpRTransform", dict(rmin=1e-10, rmax=10.0, b=99.0), 3.0), ("PowerRTransform", dict(rmin=1e-9, rmax=1.0, b=99.0), 0.5),
+                        ("LinearFiniteRTransform", dict(rmin=1.0, rmax=1.0 + 2.0 ** -29), 0.25), ("LinearInfiniteRTransform", dict(rmin=0.0, rmax=2.0 ** -28, b=50.0), 7.0),
+                        ("HandyRTransform", dict(rmin=0.0, R=1.5, m=3), -0.9999), ("BeckeRTransform", dict(rmin=0.0, R=2.0 ** -30), 0.0)):
+        tf = make_tf(cname, p, True)
+        try:
+            r = call_impl(tf, "transform", x)
+            e1, e2, e3 = call_impl(tf, "deriv", x), call_impl(tf, "deriv2", x), call_impl(tf, "deriv3", x)
+            xi = call_impl(tf, "inverse", r)
+        except Exception as e:  # noqa: BLE001
+            first.setdefault((cname, "extreme"), (p, f"forward methods at x={x}", type(e).__name__, "values"))
+            continue
+        if e1 == 0 or abs(xi - x) > 1e-6 * max(1, abs(x)):
+            continue
+        for df, exp in (("deriv_inverse", 1 / e1), ("deriv2_inverse", -e2 / e1 ** 3), ("deriv3_inverse", (3 * e2 ** 2 - e1 * e3) / e1 ** 5)):
+            for obj, meth in ((tf, df), (RT.InverseRTransform(tf), df.replace("_inverse", ""))):
+                npts += 1
+                try:
+                    ana = call_impl(obj, meth, r)
+                except Exception as e:  # noqa: BLE001
+                    first.setdefault((cname, "extreme"), (p, f"{type(obj).__name__}.{meth}(r={r}) (|dr/dx| = {abs(e1):.3g} is small but non-zero)", type(e).__name__, exp))
+                    continue
+                # the point x is recovered through inverse(r): allow for its conditioning
+                if math.isfinite(exp) and abs(ana - exp) > 1e-6 * max(1e-300, abs(exp)):
+                    first.setdefault((cname, "extreme"), (p, f"{type(obj).__name__}.{meth}(r={r})", ana, exp))
     ctx.cov["sweep_points"] = npts
     return first
 
